@@ -17,3 +17,105 @@ def timeout_consts():
             "end SwimVerif.Generated\n")
 
 EXTRACTORS = {"TimeoutConsts": timeout_consts}
+
+
+# ---------------------------------------------------------------- translator: the bodies of vote / rescind / drop / poll
+# (same scheme as tools/extractors/c12.py: structure from the source, vocabulary by exact text, anything else fails)
+import re
+from rustmini import strip_comments, norm, balanced, impl_block, fn_body, parse_block, seq
+
+T_CONDS = {
+    "before == *inverse": ".beforeIsInverse",
+    "voted.get()": ".votedGet",
+    "!self.voted.get()": ".notVoted",
+    "*inverse < TWO_VOTERS_LIM": ".twoParty",
+    "flags .compare_exchange(*flag, INIT, Ordering::Relaxed, Ordering::Relaxed) .is_err()": ".casFlagInitFails",
+    "flags.compare_exchange(*flag, INIT, Ordering::Relaxed, Ordering::Relaxed).is_err()": ".casFlagInitFails",
+    "current == inverse | flag": ".currentIsAll",
+    "flags .compare_exchange( current, current & !flag, Ordering::Relaxed, Ordering::Relaxed, ) .is_ok()": ".casClearOk",
+    "flags.compare_exchange(current, current & !flag, Ordering::Relaxed, Ordering::Relaxed).is_ok()": ".casClearOk",
+    "flags.load(Ordering::Relaxed) == *unanimity": ".loadRelaxedIsAll",
+    "flags.load(Ordering::Acquire) == *unanimity": ".loadAcquireIsAll",
+}
+T_RETS = {
+    "VoteResult::Unanimous": ".unanimous",
+    "VoteResult::UnanimityPending": ".pending",
+    "Poll::Ready(())": ".ready",
+    "Poll::Pending": ".notReady",
+}
+T_ATOMS = {
+    "let before = flags.fetch_or(*flag, Ordering::Release)": ".fetchOr",
+    "voted.set(true)": ".setVoted true",
+    "voted.set(false)": ".setVoted false",
+    "waker.wake()": ".wake",
+    "let current = flags.load(Ordering::Relaxed)": ".loadCurrent",
+    "waker.register(cx.waker())": ".register",
+}
+T_SKIP = (
+    "let Voter { flag, inverse, voted, inner, } = self",
+    "let Voter { flag, inverse, voted, inner, .. } = self",
+    "let Inner { flags, waker, .. } = &**inner",
+    "let Inner { flags, .. } = &**inner",
+    "let Inner { flags, waker, unanimity, } = &*self.get_mut().inner",
+)
+
+
+def emit_t(nodes, bodies, fn):
+    items = []
+    for nd in nodes:
+        if nd[0] == "loop":
+            items.append(f"(.loop {emit_t(nd[1], bodies, fn)})")
+            continue
+        if nd[0] == "if":
+            _, cond, then_l, else_l, _ = nd
+            if cond not in T_CONDS:
+                raise ExtractError(f"{fn}: unknown condition {cond!r}")
+            items.append(f"(.ite {T_CONDS[cond]} {emit_t(then_l, bodies, fn)} {emit_t(else_l, bodies, fn)})")
+            continue
+        _, text, is_tail = nd
+        if text in T_SKIP:
+            continue
+        if text.startswith("break "):
+            r = text[len("break "):]
+            if r not in T_RETS:
+                raise ExtractError(f"{fn}: unknown break value {r!r}")
+            items.append(f"(.ret {T_RETS[r]})")
+        elif text in T_RETS:
+            if not is_tail:
+                raise ExtractError(f"{fn}: {text!r} is not in tail position")
+            items.append(f"(.ret {T_RETS[text]})")
+        elif text in T_ATOMS:
+            items.append("(" + T_ATOMS[text] + ")" if " " in T_ATOMS[text] else T_ATOMS[text])
+        elif text == "self.vote()":
+            items.append(f"(.call {bodies['vote']})")
+        else:
+            raise ExtractError(f"{fn}: unknown statement {text!r}")
+    return seq(items)
+
+
+def timeout_src():
+    t = strip_comments(src("runtime/swimos_runtime/src/timeout_coord/mod.rs"))
+    bodies = {}
+    vb = impl_block(t, r"\bimpl Voter \{", "impl Voter")
+    bodies["vote"] = emit_t(parse_block(fn_body(vb, "vote", r"fn vote\(&self\) -> VoteResult", "Voter"), True), bodies, "vote")
+    bodies["rescind"] = emit_t(parse_block(fn_body(vb, "rescind", r"fn rescind\(&self\) -> VoteResult", "Voter"), True),
+                               bodies, "rescind")
+    db = impl_block(t, r"\bimpl Drop for Voter \{", "Drop for Voter")
+    bodies["drop"] = emit_t(parse_block(fn_body(db, "drop", r"fn drop\(&mut self\)", "Drop for Voter"), False), bodies, "drop")
+    rb = impl_block(t, r"\bimpl Future for Receiver \{", "Future for Receiver")
+    bodies["poll"] = emit_t(parse_block(fn_body(
+        rb, "poll", r"fn poll\(self: Pin<&mut Self>, cx: &mut Context<'_>\) -> Poll<Self::Output>", "Receiver"), True),
+        bodies, "poll")
+    # nothing else may touch the shared word or the waker
+    if len(re.findall(r"\bflags\b", t)) != 11 or len(re.findall(r"\bwaker\b", t)) != 7:
+        raise ExtractError("flags / waker are used somewhere else than in vote, rescind, poll and the constructor: "
+                           f"{len(re.findall(r'flags', t))} / {len(re.findall(r'waker', t))}")
+    out = [HEADER, "import SwimVerif.Model.CoordProg", "namespace SwimVerif.Generated.TimeoutSrc",
+           "open SwimVerif.CoordProg", ""]
+    for k in ("vote", "rescind", "drop", "poll"):
+        out.append(f"/-- `{k}` of `timeout_coord/mod.rs` -/\ndef {k} : CStmt :=\n  {bodies[k]}")
+    out.append("end SwimVerif.Generated.TimeoutSrc\n")
+    return "\n".join(out)
+
+
+EXTRACTORS["TimeoutSrc"] = timeout_src
